@@ -70,8 +70,18 @@ IsSettled == l > 1 /\ Obs.ev = "settled" /\ Obs.checked /\ ~Obs.panic
 OversizeMsgWedge(st) == /\ st.stream = 0 /\ Len(st.rcv_queue) >= st.rcv_wnd
                         /\ \A i \in 1..Len(st.rcv_queue) : st.rcv_queue[i].frg > 0
 WedgedByOversizeMsg == OversizeMsgWedge(Obs.end1) \/ OversizeMsgWedge(Obs.end2)
-C02_Drained == IsSettled /\ ~WedgedByOversizeMsg => Obs.drained
+(* known finding C02/Drained_AckedHeadLingers: parse_ack only MARKS a segment as acknowledged; it leaves snd_buf when a later *)
+(* packet's una passes it. If the packets that would carry that una are lost during the fault period and neither side has     *)
+(* anything left to say afterwards (everything was delivered and read), the marked segment stays for ever: it is never       *)
+(* retransmitted (acknowledged segments are skipped), so nothing elicits another una, and WaitSnd() stays > 0. Only this     *)
+(* class is listed: all data delivered, send queues empty, every segment left in a send buffer carries the acked mark.      *)
+OnlyAckedLeft(st) == /\ st.snd_queue = <<>> /\ \A i \in 1..Len(st.snd_buf) : st.snd_buf[i].acked = 1
+AckedHeadLingers == /\ Obs.rdoff[1] = Obs.woff[2] /\ Obs.rdoff[2] = Obs.woff[1]
+                    /\ OnlyAckedLeft(Obs.end1) /\ OnlyAckedLeft(Obs.end2)
+                    /\ Len(Obs.end1.snd_buf) + Len(Obs.end2.snd_buf) > 0
+C02_Drained == IsSettled /\ ~WedgedByOversizeMsg /\ ~AckedHeadLingers => Obs.drained
 C02_Drained_MsgExceedsWindow == IsSettled /\ WedgedByOversizeMsg => Obs.drained
+C02_Drained_AckedHeadLingers == IsSettled /\ ~WedgedByOversizeMsg /\ AckedHeadLingers => Obs.drained
 C02_WithinBound == IsSettled /\ Obs.drained /\ Obs.bounded =>
                      Obs.now - Obs.heal <= HealBound(Obs.heal1, Obs.heal) + HealBound(Obs.heal2, Obs.heal)
 
